@@ -74,7 +74,7 @@ CHECKS = {
    "deviation-bounded schedule search over generated router topologies with the real ArpRouter/Arp/Ipv4",
    "Lines of 1-3 routers, stars of 3-4 subnets and a 3-router ring with correct, missing and looping static routes carry one UDP datagram per execution between every listed host pair; IPv4 frames are parsed off the wire: along the configured path the TTL falls by exactly one per router, the datagram reaches the destination host only, a loop or black hole ends after at most the initial TTL hops and the networks fall silent.",
    "d <= 1 (quick) / 2 (thorough) over task order and frames held back; hosts use a /32 mask with a default gateway as in the repository's own simulation. On correct routes the destination answers and the reply is judged by the same clauses in the other direction, also across two routers that share both host networks (the way back uses the other router); a further variant addresses the datagram to an address of the destination subnet that no machine owns, with wildcard listeners on every host.", "6 C16"),
- "C13": (True, "E2", "model_checking",
+ "C13": (True, "E2 + E4 (loom)", "model_checking",
    "deviation-bounded schedule search with run_internet_with_timeout itself as a task of the explored runtime",
    "Machine sets from 0 machines to three-machine SendMessage/Forward/Capture chains, plus 17 sets of the other built-in protocols and applications (DHCP, DNS, socket, basic, streaming; pairs, servers alone, clients alone) on full stacks with ARP; harness applications that are slow to initialise, never initialise, return, hang, or request shutdown early/late/concurrently (incl. 20 at one instant) are run in every schedule within d deviations under a paused clock; a global event order shows that no frame or demux precedes the last initialisation, the status is the first request's (or TimedOut), and the call returns within timeout + 1 s.",
    "A request at exactly the timeout instant may win or lose; the built-in Capture's own request is accepted as a winner where present.", "6 C13"),
@@ -138,7 +138,7 @@ def main():
             {"name": "E3", "path": "harness/vkit/src/enumerate.rs", "kind_free_text": E3,
              "serves_properties": ["C08", "C09", "C10", "C12", "C14", "C18", "C19"]},
             {"name": "E4", "path": "harness/vloom/src/main.rs", "kind_free_text": "loom 0.7.2: every interleaving of 2-4 real threads over the socket layer's locks (DPOR, preemption bound 3 quick / unbounded thorough), one sub-process per scenario (harness/vkit/src/loomrun.rs); scheduling points are the socket layer's RwLocks (loom's under elvis-core feature verif_loom) and DashMap's shard locks (vendored dashmap with a spin lock over a loom atomic)",
-             "serves_properties": ["C02", "C04", "C15"]},
+             "serves_properties": ["C02", "C04", "C13", "C15"]},
         ],
         "checks": checks,
         "not_applicable": na,
